@@ -84,6 +84,16 @@ def run(ctx: Ctx) -> None:
     for b in behs:
         seen.setdefault(json.dumps(b["tests"]), b)
     behs = list(seen.values())
+    sampled = False
+    if not ctx.quick and len(behs) > 2500:
+        # every history costs a forked interpreter (and 3 s for each hanging step): a seeded sample keeps
+        # the thorough tier within about half an hour; single and two-test histories are all kept
+        rng = ctx.rng("hist-thorough")
+        short = [b for b in behs if len(b["tests"]) <= 2]
+        rest = [b for b in behs if len(b["tests"]) > 2]
+        rng.shuffle(rest)
+        behs = short + rest[:max(0, 2500 - len(short))]
+        sampled = True
     if ctx.quick and len(behs) > 300:
         rng = ctx.rng("hist")
         singles = [b for b in behs if len(b["tests"]) <= 2]
@@ -113,7 +123,7 @@ def run(ctx: Ctx) -> None:
         if any(s not in ("print", "raise") for t in b["tests"] for s in t):
             ctx.nontriv(json.dumps(b["tests"]))
     ctx.evaluations = len(traces)
-    ctx.exhaustive = not ctx.quick
+    ctx.exhaustive = not ctx.quick and not sampled
     verdicts = ctx.validate("ProcStateTrace", traces)
     for idx, bad in sorted(verdicts.items()):
         for clause, step in bad:
